@@ -346,7 +346,7 @@ def apply_ref(root, op):
         if n[0] != "L" or not is_idx(op[2]) or int(op[2]) >= len(n[1]):
             return False
         n[1][int(op[2])] = ["v", sc_canon(op[3])]
-    elif name == "adel":
+    elif name in ("adel", "adelr"):
         if n[0] != "L" or not is_idx(op[2]) or int(op[2]) >= len(n[1]):
             return False
         del n[1][int(op[2])]
@@ -389,7 +389,7 @@ def edit_paths(root_before, op):
         return [path + [op[2]], ([] if op[3] == "." else op[3].split("/")) + [op[2]]], []
     if name == "viv":
         return [path + [op[2], op[3]]], []
-    if name in ("ains", "adel", "tdel"):
+    if name in ("ains", "adel", "adelr", "tdel"):
         return [path], []
     if name == "arepl":
         return [path + [op[2]]], []
@@ -489,7 +489,7 @@ def original_facts(text, spans_line, m0):
 
 KEYPOOL = ["a", "b", "c", "k", "t", "new", "x1", "z", "", "a b", "é", "q\"r", "x.y", "n", "1", "'", "\\", "#h", "😀"]
 STRPOOL = ["", "v", "hello world", "it's", "say \"hi\"", "line1\nline2", "tab\there", "é😀", "a#b", "'''", "\"\"\"", "back\\slash", "\x01", "a'b\"c", "\r\n", "x = 1"]
-OPS = ["set", "set", "set", "del", "del", "newt", "viv", "sort", "fmt", "push", "push", "ains", "arepl", "adel", "tpush", "tdel", "inl", "tbl", "aot2arr", "arr2aot", "mv"]
+OPS = ["set", "set", "set", "del", "del", "newt", "viv", "sort", "fmt", "push", "push", "ains", "arepl", "adel", "adelr", "adelr", "tpush", "tdel", "inl", "tbl", "aot2arr", "arr2aot", "mv"]
 
 
 def all_nodes(n, path, out):
@@ -530,7 +530,7 @@ def gen_op(rng, ref):
         elif bad == "syntax":
             path = path + ["zz"]
         args = {"set": [h("k"), "i1"], "del": [h("a")], "newt": [h("k")], "viv": [h("a"), h("b"), "i1"], "sort": [], "fmt": [], "push": ["i1"], "ains": ["0", "i1"],
-                "arepl": ["0", "i1"], "adel": ["0"], "tpush": [], "tdel": ["0"], "inl": [h("a")], "tbl": [h("a")], "aot2arr": [h("a")], "arr2aot": [h("a")], "mv": [h("a"), "."]}[name]
+                "arepl": ["0", "i1"], "adel": ["0"], "adelr": ["0"], "tpush": [], "tdel": ["0"], "inl": [h("a")], "tbl": [h("a")], "aot2arr": [h("a")], "arr2aot": [h("a")], "mv": [h("a"), "."]}[name]
         return [name, pstr(path)] + args
     for _ in range(20):
         name = rng.choice(OPS)
@@ -575,7 +575,7 @@ def gen_op(rng, ref):
         if name == "fmt":
             p, n = rng.choice(tl + ls)
             return ["fmt", pstr(p)]
-        if name in ("push", "ains", "arepl", "adel"):
+        if name in ("push", "ains", "arepl", "adel", "adelr"):
             if not ls:
                 continue
             p, n = rng.choice(ls)
@@ -586,7 +586,7 @@ def gen_op(rng, ref):
                 return ["ains", pstr(p), str(rng.randrange(0, ln + 2)), gen_scalar(rng)]
             if name == "arepl":
                 return ["arepl", pstr(p), str(rng.randrange(0, ln + 1)), gen_scalar(rng)]
-            return ["adel", pstr(p), str(rng.randrange(0, ln + 1))]
+            return [name, pstr(p), str(rng.randrange(0, ln + 1))]
         if name in ("tpush", "tdel"):
             if not aa:
                 continue
@@ -669,6 +669,13 @@ def run(ctx):
                 parts.append("# the main binary\n[[bin]]\nname = 'b0'\n")
         docs.append(("".join(parts).encode(), "wide", None))
 
+    # arrays with a trailing comma / comments / one element per line, emptied element by element through both removal
+    # mutators (`remove`, `retain`) and refilled: the printed array must stay valid whatever the leftover decor
+    for t in ["a = [\n  'std',\n  'color',\n]\n", "a = [ 1 , 2 , ]\n", "a = [\n  1, # one\n  2, # two\n]\n", "[f]\na = [\n    'x',\n]\nb = 1\n", "a = [1, 2,]\nb = [\n]\n",
+              "a = [\n  [1, 2,],\n  [3,],\n]\n"]:
+        for _ in range(12 if big else 4):
+            docs.append((t.encode(), "drain", None))
+
     # pass 1: the unedited document — typed tree in memory and the spans of the original
     uniq = sorted({d for d, _, _ in docs})
     out0, _ = run_pair(ctx, tvh, "c08", [h(d) for d in uniq])
@@ -692,6 +699,18 @@ def run(ctx):
         ref = clone(m0)
         ops = []
         nops = rng.choice([1, 2, 3, 5, 8, maxops]) if big else rng.randrange(1, maxops + 1)
+        if kind == "drain":
+            apath = h(b"f") + "/" + h(b"a") if d.startswith(b"[f]") else h(b"a")
+            node = nav(ref, apath.split("/"))
+            for _ in range(len(node[1])):
+                op = [rng.choice(["adelr", "adelr", "adel"]), apath, "0"]
+                ops.append(op)
+                apply_ref(ref, op)
+            if rng.random() < 0.5:
+                op = ["push", apath, "i7"]
+                ops.append(op)
+                apply_ref(ref, op)
+            nops = rng.choice([0, 1, 2])
         if kind == "wide":
             for _ in range(rng.choice([2, 3, 4])):
                 op = ["tpush", h(b"bin")]
